@@ -27,8 +27,14 @@ TRUTH = ('even', 'odd', 'start', 'end')
 FALSY = ('0', 'False', '', 'None', '0.0')
 
 PART = {'obj': 'obj', 'map': 'map', 'str': 'str', 'int': 'int',
-        'tup_obj': 'obj', 'tup_map': 'map', 'tup_str': 'str', 'tup_int': 'int'}
-KINDS = tuple(PART)
+        'tup_obj': 'obj', 'tup_map': 'map', 'tup_str': 'str', 'tup_int': 'int',
+        # arbitrary scalars as elements: None, False, 0, '', 0.0 next to true values
+        'val': 'val', 'tup_val': 'val'}
+KINDS = ('obj', 'map', 'str', 'int', 'tup_obj', 'tup_map', 'tup_str', 'tup_int')
+WIDE_KINDS = KINDS + ('val', 'tup_val')
+# element values of the kinds val / tup_val (JSON-able, pairwise distinct as text; the empty list
+# and dictionary stand for false objects that are no scalars)
+VALUE_POOL = (None, 0, '', False, 'a', 0.0, 1, True, [], {})
 
 
 def is_tuple_kind(kind):
@@ -66,6 +72,20 @@ def roman(n):
             out.append(s)
             n -= v
     return ''.join(out)
+
+
+def roman_by_digits(n):
+    """a second writer (digit by digit), used to cross-check the first one"""
+    ones = ('', 'I', 'II', 'III', 'IV', 'V', 'VI', 'VII', 'VIII', 'IX')
+    tens = ('', 'X', 'XX', 'XXX', 'XL', 'L', 'LX', 'LXX', 'LXXX', 'XC')
+    hundreds = ('', 'C', 'CC', 'CCC', 'CD', 'D', 'DC', 'DCC', 'DCCC', 'CM')
+    return 'M' * (n // 1000) + hundreds[n // 100 % 10] + tens[n // 10 % 10] + ones[n % 10]
+
+
+def roman_selfcheck(top=3999):
+    """the two writers of the model agree on 1..top (a flaw in the model must not pass as a
+    verdict about the engine)"""
+    return all(roman(n) == roman_by_digits(n) for n in range(1, top + 1))
 
 
 # ------------------------------------------------------------------ probe values
@@ -108,10 +128,12 @@ def key_of(j):
     return 'k%02d' % ((j * 37 + 11) % 101)
 
 
-def build_elements(kind, xs, vals=None, extras=None):
+def build_elements(kind, xs, vals=None, extras=None, keys=None):
     """-> (elements, descriptors); descriptor: j, text (str of the item part), x, id, key
 
-    ``extras``: per element a dict of further attributes / keys (objects and mappings only)."""
+    ``extras``: per element a dict of further attributes / keys (objects and mappings only);
+    ``keys``: the keys of the 2-tuples (any values whose texts are pairwise distinct) instead of
+    the default strings."""
     part = PART[kind]
     elements = []
     descs = []
@@ -130,12 +152,41 @@ def build_elements(kind, xs, vals=None, extras=None):
             d['value'] = item
         d['text'] = str(item)
         if is_tuple_kind(kind):
-            d['key'] = key_of(j)
-            elements.append((d['key'], item))
+            if keys is not None:
+                d['key'] = str(keys[j])
+                d['keyvalue'] = keys[j]
+                elements.append((keys[j], item))
+            else:
+                d['key'] = key_of(j)
+                elements.append((d['key'], item))
         else:
             elements.append(item)
         descs.append(d)
     return elements, descs
+
+
+class OnlyIter:
+    """an iterable that is nothing else (no __getitem__, no __len__)"""
+
+    def __init__(self, data):
+        self._d = list(data)
+
+    def __iter__(self):
+        return iter(list(self._d))
+
+
+class OnlyGetitem:
+    """the old iteration protocol alone: __getitem__ raising IndexError, no __len__"""
+
+    def __init__(self, data):
+        self._d = list(data)
+
+    def __getitem__(self, i):
+        if not isinstance(i, int):
+            raise TypeError(i)
+        if i < 0 or i >= len(self._d):
+            raise IndexError(i)
+        return self._d[i]
 
 
 def make_container(name, elements):
@@ -152,10 +203,27 @@ def make_container(name, elements):
         return Lazy(elements)
     if name == 'dictitems':
         return dict(elements).items()
+    if name == 'listiter':
+        return iter(list(elements))
+    if name == 'mapobj':
+        return map(lambda e: e, list(elements))
+    if name == 'dictvalues':
+        return dict(enumerate(elements)).values()
+    if name == 'iterable':
+        return OnlyIter(elements)
+    if name == 'getitem':
+        return OnlyGetitem(elements)
+    if name == 'deque':
+        from collections import deque
+        return deque(elements)
     raise ValueError(name)
 
 
 CONTAINERS = ('list', 'tuple', 'gen', 'iter', 'lazy')
+# further ways a sequence reaches the tag: other one-pass iterators, a dictionary view, an object
+# that is iterable and nothing else, the old iteration protocol alone, another random-access type
+MORE_CONTAINERS = ('listiter', 'mapobj', 'dictvalues', 'iterable', 'getitem', 'deque')
+ALL_CONTAINERS = CONTAINERS + MORE_CONTAINERS
 
 
 # ------------------------------------------------------------------ template printer
@@ -210,6 +278,17 @@ class Syn:
     def iff(self, name):
         return self.open('if', name) + 'T' + self.open('else') + 'F' + self.close('if')
 
+    def single(self, tag, args=''):
+        """a tag without a body (HTML spellings)"""
+        a = tag + (' ' + args if args else '')
+        return '<dtml-%s>' % a if self.style == 'dtml' else '<!--#%s-->' % a
+
+    def cond(self, ctype, text):
+        """the argument of an if / elif / unless tag: a name or an expression"""
+        if ctype == 'name':
+            return text
+        return '"%s"' % text if self.style == 'dtml' else 'expr="%s"' % text
+
     def gated(self, expr, inner):
         """inner where the expression is true, the SKIP token elsewhere"""
         cond = '"%s"' % expr if self.style == 'dtml' else 'expr="%s"' % expr
@@ -240,8 +319,9 @@ def nslots(labels, gran):
     return 1 if gran == 'record' else (NGROUPS if gran == 'group' else len(labels))
 
 
-def body_fields(kind, opts, batched, letters, syn=None, ys=False, entity=False):
-    """ordered [(label, source)] of one record; only variables defined for this shape"""
+def body_fields(kind, opts, batched, letters, syn=None, ys=False, entity=False, only=None):
+    """ordered [(label, source)] of one record; only variables defined for this shape (``only``:
+    of these, the labels listed and what identifies the element)"""
     if syn is None:
         v, cond = var, iff
     else:
@@ -286,6 +366,9 @@ def body_fields(kind, opts, batched, letters, syn=None, ys=False, entity=False):
                 src = syn.entity(name)
             out.append((lab, src))
         f = out
+    if only is not None:
+        keep = set(only) | {'sequence-item', 'sequence-key'}
+        f = [(lab, src) for lab, src in f if lab in keep]
     return f
 
 
@@ -350,6 +433,207 @@ def permuted(fields, seed):
     return f
 
 
+# ------------------------------------------------------------------ block tags in the body
+# What the statement says about the body holds wherever in the body a variable is read: before,
+# inside and after any other block tag.  A *block* is a JSON-able spec; it is printed between two
+# fields of the record and its own output is a field of the record.
+#   ['if', [condition key, ...], else?]     if / elif ... / else chain
+#   ['unless', condition key]
+#   ['with', 'mapping' | 'only' | 'expr' | 'obj' | 'let']
+#   ['try', 'except' | 'raise' | 'else' | 'finally' | 'in-raise' | 'in-name-raise' | 'in-sort-raise'
+#           | 'in-reverse-raise']       (in-...: an inner loop failing in its body / when its sequence
+#                                        is looked up / sorted / when reverse_expr is evaluated)
+#   ['in', 'ints' | 'empty' | 'objs' | 'prefix' | 'expr']      an inner loop over another sequence
+#   ['call'], ['comment']
+CONDS = {
+    'e1': ('expr', '1==1'), 'e0': ('expr', '1==0'),
+    'epos': ('expr', "_['sequence-index'] > 0"),
+    'etv': ('expr', 'tv==1'), 'efv': ('expr', 'fv==1'),
+    'tv': ('name', 'tv'), 'fv': ('name', 'fv'), 'nv': ('name', 'nv'),
+    'start': ('name', 'sequence-start'), 'end': ('name', 'sequence-end'),
+    'even': ('name', 'sequence-even'), 'index': ('name', 'sequence-index'),
+    'x': ('name', 'x'), 'id': ('name', 'id'),      # attributes of a pushed element
+    'alias': ('name', '%s_odd'),                   # needs a prefix
+}
+COND_ANY = ('e1', 'e0', 'epos', 'etv', 'efv', 'tv', 'fv', 'nv', 'start', 'end', 'even', 'index')
+BLOCK_VARIANTS = {'with': ('mapping', 'only', 'expr', 'obj', 'let'),
+                  'try': ('except', 'raise', 'else', 'finally', 'in-raise', 'in-name-raise',
+                          'in-sort-raise', 'in-reverse-raise'),
+                  'in': ('ints', 'empty', 'objs', 'prefix', 'expr')}
+
+
+def conds_for(opts, pushes):
+    """condition keys defined for this shape"""
+    out = list(COND_ANY)
+    if pushes:
+        out += ['x', 'id']
+    if opts.get('prefix'):
+        out.append('alias')
+    return out
+
+
+def cond_type(key):
+    return CONDS[key][0]
+
+
+def cond_text(key, opts):
+    ctype, text = CONDS[key]
+    if key == 'alias':
+        text = text % opts['prefix']
+    return ctype, text
+
+
+def cond_truth(key, env):
+    """documented truth of a condition on one shown element; env: a (index in the sequence), i
+    (shown position), nrec, d (element descriptor)"""
+    a, i = env['a'], env['i']
+    if key in ('e1', 'etv', 'tv', 'id'):
+        return True
+    if key in ('e0', 'efv', 'fv', 'nv'):       # nv: an undefined name is false
+        return False
+    if key in ('epos', 'index'):
+        return a > 0
+    if key == 'start':
+        return i == 0
+    if key == 'end':
+        return i == env['nrec'] - 1
+    if key == 'even':
+        return a % 2 == 0
+    if key == 'alias':
+        return a % 2 == 1
+    if key == 'x':
+        return bool(env['d']['x'])
+    raise ValueError(key)
+
+
+def block_kwargs():
+    return {'tv': 1, 'fv': 0, 'wd': {'w': 5}, 'wo': Obj('wo', w=5), 'in2': [7, 8], 'in0': [],
+            'kobj': [Obj('k0', 'KX')],
+            'mixed': [Obj('m0', v=1), Obj('m1', v='one')]}     # sort keys that do not compare
+
+
+def block_styles(spec):
+    """tag spellings a block is generated for (tags without a body: the HTML spellings)"""
+    return ('dtml', 'comment') if spec[0] == 'call' else Syn.STYLES
+
+
+def block_source(syn, spec, opts, pushes=True):
+    kind = spec[0]
+    num = syn.var('sequence-number')
+    if kind == 'if':
+        out = []
+        for k, ck in enumerate(spec[1]):
+            out.append(syn.open('elif' if k else 'if', syn.cond(*cond_text(ck, opts))) + 'abcd'[k] + num)
+        if spec[2]:
+            out.append(syn.open('else') + 'z' + num)
+        return ''.join(out) + syn.close('if')
+    if kind == 'unless':
+        return (syn.open('unless', syn.cond(*cond_text(spec[1], opts))) + 'u' + num +
+                syn.close('unless'))
+    if kind == 'with':
+        v = spec[1]
+        if v == 'let':
+            return syn.open('let', 'w="5"') + 'W' + syn.var('w') + num + syn.close('let')
+        args = {'mapping': 'wd mapping', 'only': 'wd mapping only', 'obj': 'wo',
+                'expr': syn.cond('expr', '_.namespace(w=5)')}[v]
+        return (syn.open('with', args) + 'W' + syn.var('w') + ('' if v == 'only' else num) +
+                syn.close('with'))
+    if kind == 'try':
+        v = spec[1]
+        o, c = syn.open, syn.close
+        if v == 'except':
+            return o('try') + 't' + syn.var('nv') + o('except') + 'E' + num + c('try')
+        if v == 'raise':
+            return (o('try') + o('with', 'wd mapping') + o('raise', 'KeyError') + 'm' + c('raise') +
+                    c('with') + o('except', 'KeyError') + 'E' + num + c('try'))
+        if v == 'else':
+            return o('try') + 't' + o('except') + 'E' + o('else') + 'l' + num + c('try')
+        if v == 'finally':
+            return o('try') + 't' + num + o('finally') + 'f' + c('try')
+        if v.startswith('in-'):
+            args, body = {'in-raise': ('in2', syn.var('nv')),
+                          'in-name-raise': ('nv', 'q'),
+                          'in-sort-raise': ('mixed sort=v', 'q'),
+                          'in-reverse-raise': ('in2 reverse_expr="nv"', 'q')}[v]
+            return (o('try') + o('in', args) + body + c('in') + o('except') + 'E' + num +
+                    c('try'))
+    if kind == 'in':
+        v = spec[1]
+        o, c = syn.open, syn.close
+        if v == 'ints':
+            return o('in', 'in2') + syn.var('sequence-item') + c('in')
+        if v == 'empty':
+            return o('in', 'in0') + 'q' + o('else') + 'e' + num + c('in')
+        if v == 'objs':
+            return o('in', 'kobj') + syn.var('x') + syn.var('id') + c('in')
+        if v == 'prefix':
+            q = opts.get('prefix') or 'p'
+            return o('in', 'in2 prefix=%s' % q) + syn.var(q + '_item') + c('in')
+        if v == 'expr':
+            return o('in', 'expr="in2" no_push_item') + syn.var('sequence-index') + c('in')
+    if kind == 'call':
+        return syn.single('call', syn.cond('expr', '1+1'))
+    if kind == 'comment':
+        return syn.open('comment') + 'zz' + syn.var('nv') + syn.close('comment')
+    raise ValueError(spec)
+
+
+def block_expect(spec, env, opts):
+    """the text a block prints on one shown element, from the documentation of the tags"""
+    kind = spec[0]
+    num = str(env['a'] + 1)
+    if kind == 'if':
+        for k, ck in enumerate(spec[1]):
+            if cond_truth(ck, env):
+                return 'abcd'[k] + num
+        return 'z' + num if spec[2] else ''
+    if kind == 'unless':
+        return '' if cond_truth(spec[1], env) else 'u' + num
+    if kind == 'with':
+        return 'W5' + ('' if spec[1] == 'only' else num)
+    if kind == 'try':
+        return {'else': 'tl' + num, 'finally': 't' + num + 'f'}.get(spec[1], 'E' + num)
+    if kind == 'in':
+        return {'ints': '78', 'empty': 'e' + num, 'objs': 'KXk0', 'prefix': '78', 'expr': '01'}[spec[1]]
+    if kind in ('call', 'comment'):
+        return ''
+    raise ValueError(spec)
+
+
+def block_code(spec, env=None):
+    """coverage key of a block (with env: and of the branch taken)"""
+    if spec[0] == 'if':
+        code = '>'.join(cond_type(ck) for ck in spec[1]) + ('+else' if spec[2] else '')
+        if env is not None:
+            taken = [k for k, ck in enumerate(spec[1]) if cond_truth(ck, env)]
+            code += ':' + ('abcd'[taken[0]] if taken else ('z' if spec[2] else '-'))
+        return code
+    if spec[0] == 'unless':
+        return 'unless ' + cond_type(spec[1])
+    return ' '.join(spec)
+
+
+def expand_case(case):
+    """a case that gives the length of its sequence as ``count`` instead of listing it"""
+    if 'count' not in case or 'xs' in case:
+        return case
+    n = case['count']
+    c = dict(case)
+    c['xs'] = [(j * 7 // 10) % 3 for j in range(n)]
+    part = PART[case['kind']]
+    if part == 'int':
+        c['vals'] = [(j * 7919) % 10007 for j in range(n)]
+    elif part == 'str':
+        c['vals'] = ['s%d' % ((j * 7919) % 10007) for j in range(n)]
+    elif part == 'val':
+        c['vals'] = [VALUE_POOL[(j * 5 + j // 8) % len(VALUE_POOL)] for j in range(n)]
+    else:
+        c['vals'] = None
+    if is_tuple_kind(case['kind']) and n > 100 and case.get('keys') is None:
+        c['keys'] = ['q%04d' % ((j * 7919) % 10007) for j in range(n)]   # the default keys repeat
+    return c
+
+
 def else_text(case):
     return ELSE + 'EV' + ELSE2 if (case.get('syntax') or {}).get('rich_else') else ELSE
 
@@ -365,8 +649,17 @@ def flat_source(case):
     sx = case.get('syntax') or {}
     syn = Syn(sx.get('style', 'dtml'))
     form = case.get('form', 'name')
-    fields = body_fields(case['kind'], opts, bool(batch), n <= 26, syn,
-                         bool(case.get('ys')), bool(sx.get('entity')))
+    only = case.get('only')
+    fields = body_fields(case['kind'], opts, bool(batch),
+                         n <= 26 or (only is not None and 'sequence-letter' in only), syn,
+                         bool(case.get('ys')), bool(sx.get('entity')), only)
+    if case.get('blocks'):
+        # block tags between the reads: inserted from the back so that positions refer to the
+        # plain record
+        pushes = has_x(case['kind'], opts) and not opts.get('no_push_item')
+        for k, (pos, spec) in sorted(enumerate(case['blocks']), key=lambda t: -t[1][0]):
+            fields.insert(min(pos, len(fields)),
+                          ('block:%d' % k, block_source(syn, spec, opts, pushes)))
     if case.get('perm') is not None:
         fields = permuted(fields, case['perm'])
     gate = case.get('gate')
@@ -417,6 +710,8 @@ def case_extras(case, labels=None):
                 extras[j]['g'] = rows[j]
     if (case.get('syntax') or {}).get('rich_else'):
         kw['ev'] = 'EV'
+    if case.get('blocks'):
+        kw.update(block_kwargs())
     return (extras if (ys or (gate and gate['by'] == 'attr')) else None), kw
 
 
@@ -805,13 +1100,15 @@ class Harness:
         if case['family'] == 'names':
             return self.evaluate_names(case, classify)
         ctx, T = self.ctx, self.tally
+        given = case
+        case = expand_case(case)        # reported / replayed in the compact form
         kind, opts = case['kind'], case['opts']
         xs = case['xs']
         n = len(xs)
         batch = case.get('batch')
         src, fields = flat_source(case)
         extras, kwargs = case_extras(case, [lab for lab, _ in fields])
-        elements, descs = build_elements(kind, xs, case.get('vals'), extras)
+        elements, descs = build_elements(kind, xs, case.get('vals'), extras, case.get('keys'))
         if case.get('ys'):
             for d, y in zip(descs, case['ys']):
                 d['y'] = y
@@ -821,12 +1118,17 @@ class Harness:
             ns = outer_namespace(opts)
         desc = (case['family'], kind, case['container'], opts_code(opts), opts.get('prefix'),
                 case.get('form'), bool(case.get('else')), bool(case.get('outer')),
-                tuple(xs), tuple(case.get('vals') or ()), tuple(sorted((batch or {}).items())))
+                ('count', n) if 'count' in given else tuple(xs),
+                () if 'count' in given else tuple(case.get('vals') or ()),
+                tuple(sorted((batch or {}).items())))
         sx, gate = case.get('syntax'), case.get('gate')
         if sx or gate or case.get('ys') or case.get('perm') is not None:
             desc += (tuple(sorted((sx or {}).items())),
                      (gate['by'], gate['gran'], tuple(gate['rows'])) if gate else None,
                      tuple(case.get('ys') or ()), case.get('perm'))
+        if case.get('blocks') or case.get('only') is not None or case.get('keys') is not None:
+            desc += (repr(case.get('blocks')), tuple(case.get('only') or ()),
+                     repr(case.get('keys')))
         ctx.case(desc, n >= 1 or bool(case.get('else')))
         style = (sx or {}).get('style', 'dtml')
         if sx:
@@ -841,7 +1143,13 @@ class Harness:
             T.c('cases with a second run attribute y')
         if case.get('perm') is not None:
             T.c('cases with a permuted reading order')
-        T.t('lengths', min(n, 27) if n <= 27 else 'more')
+        if case.get('blocks'):
+            T.c('cases with block tags between the reads')
+        if case.get('keys') is not None:
+            T.c('cases with arbitrary values as the keys of 2-tuples')
+        if case.get('only') is not None:
+            T.c('cases reading a part of the variables only')
+        T.t('lengths', min(n, 27) if n <= 27 else ('more' if n <= 60 else 'more than 60'))
         T.t('kind x container', '%s/%s' % (kind, case['container']))
         T.t('option subsets', opts_code(opts))
         T.t('form/else/outer', '%s/%s/%s' % (case.get('form'), int(bool(case.get('else'))),
@@ -863,14 +1171,14 @@ class Harness:
         if case['container'] == 'iter' and out is not None:
             T.c('iterator containers: pulls == length' if seq.pulls == n
                 else 'iterator containers: pulls != length')
-        return self.report(case, problems, out, src, classify)
+        return self.report(given, problems, out, src, classify)
 
     def report(self, case, problems, out, src, classify):
         if not problems:
             return True
         labels = sorted(set(p[0] for p in problems))
         mech = classify(case, problems) if classify else None
-        n = len(case.get('xs') or case.get('kids') or ())
+        n = case['count'] if 'count' in case else len(case.get('xs') or case.get('kids') or ())
         key = '%s_%s_%s_%s_n%d_%s' % (case['family'], case.get('kind', 'obj'),
                                       case.get('container', 'list'),
                                       opts_code(case.get('opts', {})), n,
@@ -987,8 +1295,15 @@ class Harness:
             return gate['rows'][first - 1 + i if gate['by'] == 'index' else shown[i]['j']]
 
         def opened(i, label):
+            if label not in col:
+                return False            # not part of this body
             m = mask_at(i)
             return m is None or slots[col[label]] is None or bool((m >> slots[col[label]]) & 1)
+        blocks = case.get('blocks') or ()
+        if blocks:
+            at = min(col['block:%d' % k] for k in range(len(blocks)))
+            T.c('reads after a block tag in the body',
+                nrec * sum(1 for lab in labels[at + 1:] if not lab.startswith('block:')))
         if gate:
             T.c('gated cases compared')
         for i, r in enumerate(recs):
@@ -997,6 +1312,8 @@ class Harness:
 
             def gate_closed(label):
                 """a field behind a closed gate must print the skip token and nothing else"""
+                if label not in col:
+                    return True             # not part of this body
                 if opened(i, label):
                     if gate:
                         T.c('gated fields read')
@@ -1012,7 +1329,10 @@ class Harness:
                 if gate_closed(label):
                     return
                 g = r[col[label]]
-                T.t('variables compared', label)
+                if label.startswith('block:'):
+                    T.t('blocks compared', block_code(blocks[int(label[6:])][1]))
+                else:
+                    T.t('variables compared', label)
                 if truth:
                     ok = (g == 'T') == want if label.startswith('if:') else truthy(g) == want
                 else:
@@ -1020,8 +1340,18 @@ class Harness:
                 if not ok:
                     add((label, '%s=%r on shown position %d (index %d), expected %s%r'
                          % (label, g, i, a, 'truth ' if truth else '', want)))
+            if blocks:
+                env = {'a': a, 'i': i, 'nrec': nrec, 'd': shown[i]}
+                for k, (_, spec) in enumerate(blocks):
+                    chk('block:%d' % k, block_expect(spec, env, opts))
+                    if spec[0] == 'if' and opened(i, 'block:%d' % k):
+                        T.t('if chains: kinds of the conditions and branch taken',
+                            block_code(spec, env))
             chk('sequence-index', str(a))
             chk('sequence-number', str(a + 1))
+            if a >= 60 and (opened(i, 'sequence-roman') or opened(i, 'sequence-Roman')
+                            or opened(i, 'alias:roman') or opened(i, 'alias:Roman')):
+                T.t('roman numerals compared beyond 60, by hundred', (a + 1) // 100)
             if 'sequence-letter' in col and a < 26:
                 chk('sequence-letter', 'abcdefghijklmnopqrstuvwxyz'[a])
                 chk('sequence-Letter', 'ABCDEFGHIJKLMNOPQRSTUVWXYZ'[a])
@@ -1037,13 +1367,16 @@ class Harness:
                 chk(form + 'end', i == nrec - 1, True)
             d = shown[i]
             chk('sequence-item', d['text'])
+            if PART[kind] == 'val' and (opened(i, 'sequence-item') or 'ident' in col):
+                T.t('scalar elements compared', '%s/%r/%s' % (
+                    case['container'], d['value'], 'first' if d['j'] == 0 else 'later'))
             if 'sequence-key' in col:
                 chk('sequence-key', d['key'])
             if not batch:
                 chk('sequence-length', str(n))
             else:
                 gate_closed('sequence-length')
-            if 'sequence-var-x' in col:
+            if has_x(kind, opts):
                 for nm in ('x', 'y') if ys else ('x',):
                     chk('sequence-var-' + nm, str(d[nm]))
                     if batch:
@@ -1098,6 +1431,10 @@ class Harness:
                                  % (pfx, nm, g, i, a, 'truth ' if truth else '', want)))
             if len(problems) > 12:
                 break
+        else:
+            if (n >= 3999 and nrec == n and not gate and 'sequence-roman' in col
+                    and 'sequence-Roman' in col):
+                T.c('sequences with every numeral 1..3999 compared')
 
     # -------------------------------------------------------------- nested
     def evaluate_nested(self, case, classify=None):
